@@ -233,6 +233,17 @@ class CMapDB:
     @classmethod
     def _load_data(cls, name: str) -> Any:
         name = name.replace("\0", "")
+        # The name comes from the document. It must name a file inside the
+        # CMap directories and nothing else, so path separators and the
+        # special directory names are not acceptable.
+        if (
+            not name
+            or name in (".", "..")
+            or "/" in name
+            or "\\" in name
+            or os.path.basename(name) != name
+        ):
+            raise CMapDB.CMapNotFound(name)
         filename = "%s.pickle.gz" % name
         log.debug("loading: %r", name)
         cmap_paths = (
